@@ -56,8 +56,33 @@ def configs(tier):
     return configs_for(tier)
 
 
+def _mag_lemma(prog):
+    from ..engines.mag import cost_is_finite
+    if not has_feature(prog, "smawk"):
+        return True
+    return cost_is_finite(prog)[0]
+
+
+lemmas.register("C04.R3", _mag_lemma)
+
+
 def run(prog, rep):
     lemmas.load_all()
+    if has_feature(prog, "smawk"):
+        from ..engines.mag import cost_is_finite
+        from ..engine import AnchorMissing
+        try:
+            okm, note = cost_is_finite(prog)
+        except AnchorMissing as e:
+            okm, note = False, "anchor-not-found: %s" % e
+        if okm:
+            rep.ok("C04.R3", "crate::wrap_algorithms::optimal_fit::wrap_optimal_fit::{closure#0}",
+                   "no cost computed for usize-valued widths and penalties is infinite (OverflowError unreachable from WrapAlgorithm::wrap)",
+                   "MAG: " + note)
+        else:
+            rep.violation("C04.R3", "crate::wrap_algorithms::optimal_fit::wrap_optimal_fit::{closure#0}", "magnitude",
+                          "src/wrap_algorithms/optimal_fit.rs", "the magnitude analysis cannot show that optimal-fit costs stay finite "
+                          "for usize-valued inputs: %s; WrapAlgorithm::wrap's unwrap() may panic" % note)
     obs = enumerate_obligations(prog)
     counts = {}
     table_hits = {}
